@@ -38,6 +38,10 @@ pub struct Script {
     /// plan of the i-th connection; later connections use `rest`
     pub conns: Vec<ConnPlan>,
     pub rest: ConnPlan,
+    /// 0 = every reply is the 12-byte bulk string `re:<id>`; 1 = the reply's RESP shape depends on
+    /// the request (bulk, array with nil/integer members, error, simple string, 9 KiB bulk with CRLFs)
+    #[serde(default)]
+    pub shapes: u8,
 }
 
 /// more connections than any bounded retry policy can need for one case
@@ -64,6 +68,51 @@ impl ScriptedBackend {
         let mut v = b"re:".to_vec();
         v.extend_from_slice(req.last().map(|x| x.as_slice()).unwrap_or(b""));
         v
+    }
+
+    /// the reply as a RESP value; with `shapes` on, its shape is a function of the request
+    pub fn shaped_reply_for(shapes: u8, req: &[Vec<u8>]) -> RVal {
+        let name = Self::reply_for(req);
+        if shapes == 0 {
+            return RVal::Bulk(Some(name));
+        }
+        let h = name.iter().fold(7usize, |a, b| a.wrapping_mul(31).wrapping_add(*b as usize));
+        match h % 7 {
+            0 | 1 => RVal::Bulk(Some(name)),
+            2 => RVal::Arr(Some(vec![RVal::Bulk(Some(name)), RVal::Bulk(None), RVal::Int(b"42".to_vec()), RVal::Arr(Some(vec![]))])),
+            3 => {
+                let mut e = b"ERR backend says ".to_vec();
+                e.extend_from_slice(&name);
+                RVal::Error(e)
+            }
+            4 => RVal::Simple(name),
+            5 => {
+                // larger than the product's 8 KiB connection buffers, with CRLF and RESP type bytes inside
+                let mut b = name.clone();
+                b.push(b' ');
+                while b.len() < 9000 {
+                    b.extend_from_slice(b"\r\n$3\r\n*1\r\n-x:");
+                }
+                RVal::Bulk(Some(b))
+            }
+            _ => RVal::Arr(Some(vec![RVal::Arr(Some(vec![RVal::Bulk(Some(name))])), RVal::Bulk(Some(vec![]))])),
+        }
+    }
+}
+
+/// the `re:<token>` marker a (shaped) backend reply carries, if it is a backend reply at all
+pub fn marker_of(v: &RVal) -> Option<Vec<u8>> {
+    fn find(s: &[u8]) -> Option<Vec<u8>> {
+        let pos = s.windows(3).position(|w| w == b"re:")?;
+        let rest = &s[pos..];
+        let end = rest.iter().skip(3).position(|b| !b.is_ascii_alphanumeric()).map(|i| i + 3).unwrap_or(rest.len());
+        Some(rest[..end].to_vec())
+    }
+    match v {
+        RVal::Simple(s) | RVal::Error(s) => find(s),
+        RVal::Bulk(Some(s)) => find(s),
+        RVal::Arr(Some(items)) => items.iter().find_map(marker_of),
+        _ => None,
     }
 }
 
@@ -119,7 +168,7 @@ async fn serve(be: Arc<ScriptedBackend>, idx: usize, plan: ConnPlan, mut io: tok
                 }
             }
             let mut out = vec![];
-            RVal::Bulk(Some(ScriptedBackend::reply_for(&req))).encode(&mut out);
+            ScriptedBackend::shaped_reply_for(be.script.shapes, &req).encode(&mut out);
             pending.push(out);
         }
         if pending.len() >= coalesce || (idle && !pending.is_empty()) {
